@@ -368,6 +368,9 @@ func (s *Sim) execOp(i int) {
 		var sp bool
 		sp, err = s.retry.Connect(ctx, cfg.ClientID, s.connectOpts()...)
 		s.setConnecting(b, false)
+		st.mu.Lock()
+		st.sp = sp
+		st.mu.Unlock()
 		extra = fmt.Sprintf("sp=%v", sp)
 	case "setclient":
 		s.mu.Lock()
@@ -378,6 +381,29 @@ func (s *Sim) execOp(i int) {
 		s.log(Rec{Kind: "dial", Conn: k, S: "manual"})
 		s.log(Rec{Kind: "dialdone", Conn: k, S: "manual"})
 		s.retry.SetClient(ctx, b)
+	case "afterconnect":
+		// what a wrapper does once Connect returned: re-subscribe if the broker
+		// lost the session (never on the first connection), then retry
+		t := s.opState[op.Target]
+		t.mu.Lock()
+		terr, ok := t.err, t.returned
+		sp := t.sp
+		t.mu.Unlock()
+		if !ok || terr != nil {
+			extra = "connect-failed"
+			break
+		}
+		s.mu.Lock()
+		s.manualConnects++
+		first := s.manualConnects == 1
+		s.mu.Unlock()
+		if !first && (!sp || cfg.AlwaysResub) {
+			s.retry.Resubscribe(ctx)
+			extra = "resubscribe+retry"
+		} else {
+			extra = "retry"
+		}
+		s.retry.Retry(ctx)
 	case "retry":
 		s.retry.Retry(ctx)
 	case "resubscribe":
